@@ -26,7 +26,8 @@ SPEC = {
                   "wheel turns into exactly c ticks (C32_entry_timeout), and with a clock that never steps back the entry added after the "
                   "tick at instant t is still waiting while no tick is beyond t + c * tryInterval and has been handed to handleOutbound "
                   "once a tick is at or beyond t + (c + 1) * tryInterval - at most one tick late (C32_entry_timing, from the C33 theorems "
-                  "through the trace invariant C32_trace).",
+                  "through the trace invariant C32_trace). "
+                  "System level (component sysmon_C32): in seeded event histories of four real nodes built by nebula.Main (an unsafe network reachable through two gateways with equal and unequal ECMP weights, gateways without a tunnel while traffic flows, then their handshakes completing) every inner packet handed to a tun is sealed for the wire at most once in total whichever gateway carries it, is delivered at most once in total across all gateways, and a packet that was queued on a pending handshake is sent exactly once when that handshake completes if the outbound firewall allows it.",
     "level_note": "Two deviations of the code from the plain reading of the property are proved as witnesses and reproduced on the real "
                   "code by the correspondence corpus: (1) a lighthouse-triggered handleOutbound counts as an attempt even when it sends "
                   "nothing (C32_trigger_consumes_attempts_refuted), so `retries` bounds timer-driven plus triggered calls; (2) the timer "
@@ -42,7 +43,7 @@ SPEC = {
     "props": ["props/C32.v"],
     "corr": ["corr/HsRetry_corr.v"],
     "build_comp": "hsmgr",
-    "comps": [{"comp": "hsretry", "n_quick": 80, "n_thorough": 800}],
+    "comps": [{"comp": "hsretry", "n_quick": 80, "n_thorough": 800}, {"comp": "sysmon_C32", "e2e": True, "n_quick": 12, "n_thorough": 150}],
     "trusted": ["model/HsRetry.v is a hand-written mirror of handshake_manager.go (StartHandshake, cachePacket, handleOutbound, "
                 "NextOutboundHandshakeTimerTick, hsTimeout, the completion and restart branches of continueHandshake) over model/Wheel.v "
                 "(C33); tied by the correspondence",
